@@ -59,8 +59,17 @@ def _inv(ctx, M):
     return np.linalg.inv(M)
 
 
+def _sparse3(ctx, name):
+    """3 x 3 SPD with a zero first off-diagonal and a non-zero corner: [[a,0,c],[0,b,0],[c,0,d]]"""
+    a, b, d = [ctx.real("%s%s" % (name, k), lo=0, lo_open=True) for k in ("00", "11", "22")]
+    c = ctx.real(name + "02")
+    ctx.assume(a * d - c * c > 0)
+    M = np.array([[a, 0, c], [0, b, 0], [c, 0, d]], dtype=object)
+    return M if ctx.sym else M.astype(float)
+
+
 def _cases(tier):
-    c = [(1, 1, False), (1, 2, False), (2, 1, False), (2, 2, True), (2, 2, False)]
+    c = [(1, 1, False), (1, 2, False), (2, 1, False), (2, 2, True), (2, 2, False), (1, 3, "sparse")]
     if tier == "thorough":
         c += [(1, 3, True), (3, 1, True), (2, 3, True), (3, 2, True), (3, 3, True)]
     return c
@@ -77,7 +86,9 @@ def k_identities(ctx):
         S_a = _spd(ctx, "Sa", n, diag)
     else:
         S_a = _diag_pos(ctx, "Sa", n)
-    if m <= 2:
+    if diag == "sparse":
+        S_y = _sparse3(ctx, "Sy")
+    elif m <= 2:
         S_y = _spd(ctx, "Sy", m, diag)
     else:
         S_y = _diag_pos(ctx, "Sy", m)
@@ -229,7 +240,7 @@ PLAN = {
     "thorough": {"harnesses": ["C17.identities", "C17.scalar-bounds", "C17.history", "C17.definite"],
                  "opts": {"query_timeout_ms": 60000}},
 }
-BOUNDS = {"quick": {"shapes (n, m)": "(1,1), (1,2), (2,1), (2,2) with full symmetric SPD covariances (and (2,2) with diagonal ones); all real K incl. zero / rank deficient",
+BOUNDS = {"quick": {"shapes (n, m)": "(1,1), (1,2), (2,1), (2,2) with full symmetric SPD covariances (and (2,2) with diagonal ones), (1,3) with a sparse 3x3 S_y (zero first off-diagonal, non-zero corner); all real K incl. zero / rank deficient",
                     "scalar bounds": "n = 1, m <= 2",
                     "definiteness / eigenvalues": "n = 2, m = 1 with full and diagonal S_a: S positive definite, S_a - S positive semi-definite, "
                                                   "both eigenvalues of A real and in [0, 1)"},
